@@ -1959,14 +1959,40 @@ func (x *Exec) builtinCopy(dst SliceV, srcv Value) Value {
 	if n.IsConst() && n.Val.Sign() == 0 {
 		return n
 	}
-	if src.Obj.Kind != OPlain {
-		x.materialize(src.Obj)
-	}
 	if dst.Obj.Kind != OPlain {
 		x.materialize(dst.Obj)
 	}
+	if src.Obj.Kind == OBigBytes && !src.Obj.BLen.IsConst() {
+		// source = the significant bytes of a big.Int (symbolic count): byte t is
+		// (mag >> 8*(L-1-t)) & 0xff; no fork over the length
+		da := dst.Obj.Val.(*ArrV)
+		if len(da.Elems) > 512 {
+			panic(pathEnd{"bound", "copy of big.Int bytes into an array larger than 512 cells"})
+		}
+		x.access(dst.Obj, nil, true)
+		L, mag := src.Obj.BLen, src.Obj.BMag
+		for j := range da.Elems {
+			jt := BVi(int64(j), 64)
+			rel := Sub(jt, dst.Off)
+			inr := And(Sle(dst.Off, jt), Slt(rel, n))
+			if inr.IsFalse() {
+				continue
+			}
+			t := Add(src.Off, rel)
+			amt := Mul(BVi(8, 64), Sub(Sub(L, BVi(1, 64)), t))
+			v := Extract(7, 0, LShr(mag, ZExt(amt, BigW)))
+			da.Elems[j] = Ite(inr, v, asTerm(da.Elems[j]))
+		}
+		return n
+	}
+	if src.Obj.Kind != OPlain {
+		x.materialize(src.Obj)
+	}
 	sa := src.Obj.Val.(*ArrV)
 	da := dst.Obj.Val.(*ArrV)
+	if len(sa.Elems) == 0 {
+		return n
+	}
 	x.access(src.Obj, nil, false)
 	x.access(dst.Obj, nil, true)
 	if n.IsConst() && dst.Off.IsConst() && src.Off.IsConst() {
